@@ -26,6 +26,7 @@ import (
 	"regexp"
 	"strconv"
 	"strings"
+	"sync/atomic"
 	"time"
 
 	. "vh/lib"
@@ -51,6 +52,8 @@ const sdpHead = "v=0\r\no=- 0 0 IN IP4 127.0.0.1\r\ns=No Name\r\nc=IN IP4 127.0.
 const sdpVideo = "m=video 0 RTP/AVP 96\r\na=rtpmap:96 H264/90000\r\na=fmtp:96 packetization-mode=1; sprop-parameter-sets=Z2QAH6zZQFAFuhAAAAMAEAAAAwPI8YMZYA==,aO+8sA==; profile-level-id=64001F\r\n"
 const sdpAudio = "m=audio 0 RTP/AVP 97\r\na=rtpmap:97 MPEG4-GENERIC/44100/2\r\na=fmtp:97 profile-level-id=1;mode=AAC-hbr;sizelength=13;indexlength=3;indexdeltalength=3; config=121056E500\r\n"
 const sdpText = sdpHead + sdpVideo + "a=control:streamid=0\r\n" + sdpAudio + "a=control:streamid=1\r\n"
+func sdpFor(path string) string { return strings.Replace(sdpText, "s=No Name", "s=stream "+path, 1) }
+
 const realm = config.Name
 const sentinelCSeq = "sentinel-7f3a"
 
@@ -101,6 +104,7 @@ type conn struct {
 	sid        string
 	played     bool
 	recorded   bool
+	ssrc       int // low byte of the SSRC of the last interleaved RTP frame
 }
 
 type world struct {
@@ -135,8 +139,10 @@ func mkUser(v Val) *auth.User {
 		PushAccess: v.At(3).Str(), PullAccess: v.At(4).Str()}
 }
 
-func rtpPacket(seq uint16) *rtp.Packet {
-	data := []byte{0x80, 96, byte(seq >> 8), byte(seq), 0, 0, 0, 1, 0x11, 0x22, 0x33, 0x44,
+// every watched path's stream is fed packets carrying the path's position in the watch list as SSRC, and every
+// pre-published stream announces its path as SDP session name: the client can tell whose media / description it got
+func rtpPacket(seq uint16, idx int) *rtp.Packet {
+	data := []byte{0x80, 96, byte(seq >> 8), byte(seq), 0, 0, 0, 1, 0x11, 0x22, 0x33, byte(idx),
 		0x41, 0x9a, 0x24, 0x6c, 0x41, 0x4f, 0xfe, 0xd0, 0x10, 0x20, 0x30, 0x40}
 	p := &rtp.Packet{Channel: byte(rtp.ChannelVideo), Data: data}
 	if err := p.Header.Unmarshal(p.Data); err != nil {
@@ -148,9 +154,9 @@ func rtpPacket(seq uint16) *rtp.Packet {
 // feed writes one RTP packet into every stream registered under a watched path
 func (w *world) feed() {
 	w.seq++
-	for _, p := range w.watch {
+	for i, p := range w.watch {
 		if s := media.Get(p); s != nil {
-			s.WriteRtpPacket(rtpPacket(w.seq))
+			s.WriteRtpPacket(rtpPacket(w.seq, i+1))
 		}
 	}
 }
@@ -222,15 +228,26 @@ func (w *world) token(v Val) string {
 	return ""
 }
 
+// wirePath spells a (decoded) path for a request line: percent-escaped where it must be, and every other
+// time a path has dot-dot segments they are written %2e%2e
+func wirePath(p string) string {
+	e := (&url.URL{Path: p}).EscapedPath()
+	if strings.Contains(p, "/../") && len(p)%2 == 0 {
+		e = strings.Replace(e, "/../", "/%2e%2e/", -1)
+	}
+	return e
+}
+
 func (w *world) url(path, tok string) string {
-	u := w.srv.URL + path
+	u := w.srv.URL + wirePath(path)
 	if tok != "" {
 		u += "?token=" + url.QueryEscape(tok)
 	}
 	return u
 }
 
-var httpClient = &http.Client{Timeout: 5 * time.Second, Transport: &http.Transport{DisableKeepAlives: true}}
+var httpClient = &http.Client{Timeout: 5 * time.Second, Transport: &http.Transport{DisableKeepAlives: true},
+	CheckRedirect: func(req *http.Request, via []*http.Request) error { return http.ErrUseLastResponse }}
 
 func (w *world) tokenReply(resp *http.Response, err error) Val {
 	if err != nil {
@@ -277,6 +294,7 @@ type response struct {
 	cseq  string
 	nonce string
 	sess  string
+	body  string
 }
 
 func parseResponse(br *bufio.Reader) (*response, error) {
@@ -321,9 +339,11 @@ func parseResponse(br *bufio.Reader) (*response, error) {
 		}
 	}
 	if clen > 0 {
-		if _, err = io.CopyN(io.Discard, br, int64(clen)); err != nil {
+		b := make([]byte, clen)
+		if _, err = io.ReadFull(br, b); err != nil {
 			return nil, err
 		}
+		r.body = string(b)
 	}
 	return r, nil
 }
@@ -338,6 +358,9 @@ func (c *conn) next(d time.Duration) (*response, error) {
 		}
 		if len(msg) > 0 && msg[0] == '$' {
 			c.frames++
+			if len(msg) >= 16 {
+				c.ssrc = int(msg[15])
+			}
 			return nil, nil
 		}
 		return parseResponse(bufio.NewReader(bytes.NewReader(msg)))
@@ -353,10 +376,14 @@ func (c *conn) next(d time.Duration) (*response, error) {
 			return nil, err
 		}
 		n := int(h[2])<<8 | int(h[3])
-		if _, err = io.CopyN(io.Discard, c.br, int64(n)); err != nil {
+		fr := make([]byte, n)
+		if _, err = io.ReadFull(c.br, fr); err != nil {
 			return nil, err
 		}
 		c.frames++
+		if n >= 12 {
+			c.ssrc = int(fr[11])
+		}
 		return nil, nil
 	}
 	return parseResponse(c.br)
@@ -428,7 +455,7 @@ var methodNames = map[int64]string{1: "DESCRIBE", 2: "ANNOUNCE", 3: "SETUP", 4: 
 // method: 1 DESCRIBE 2 ANNOUNCE 3 SETUP(play) 4 SETUP(record) 5 PLAY 6 RECORD
 func (c *conn) rtspRequest(m int64, path string, cred Val) string {
 	name := methodNames[m]
-	uri := "rtsp://127.0.0.1:554" + path
+	uri := "rtsp://127.0.0.1:554" + wirePath(path)
 	if m == 3 || m == 4 {
 		uri += "/streamid=0"
 	}
@@ -492,7 +519,7 @@ func (w *world) mediaArrives(c *conn, budget int) bool {
 
 func (w *world) rtspEvent(c *conn, m int64, path string, cred Val) Val {
 	if c == nil || c.dead || c.kind < 0 || c.kind > 1 {
-		return L(I(-1), I(0), w.registry())
+		return L(I(-1), I(0), w.registry(), I(0))
 	}
 	rs := c.exchange(c.rtspRequest(m, path, cred))
 	code := int64(-1)
@@ -515,7 +542,29 @@ func (w *world) rtspEvent(c *conn, m int64, path string, cred Val) Val {
 		}
 		mediaSeen = w.mediaArrives(c, budget)
 	}
-	return L(I(code), Bo(mediaSeen), w.registry())
+	// whose description / media was it
+	aux := int64(0)
+	if m == 1 && code == 200 && len(rs) == 1 {
+		aux = w.sdpOwner(rs[0].body)
+	}
+	if m == 5 && mediaSeen {
+		aux = int64(c.ssrc)
+	}
+	return L(I(code), Bo(mediaSeen), w.registry(), I(aux))
+}
+
+// sdpOwner: the position in the watch list of the stream whose session name the description carries (0: none)
+func (w *world) sdpOwner(body string) int64 {
+	for _, line := range strings.Split(body, "\r\n") {
+		if strings.HasPrefix(line, "s=stream ") {
+			for i, p := range w.watch {
+				if p == strings.TrimPrefix(line, "s=stream ") {
+					return int64(i + 1)
+				}
+			}
+		}
+	}
+	return 0
 }
 
 // ---------------------------------------------------------------- websocket entry points
@@ -580,6 +629,7 @@ type dataSock struct {
 	ws     *websocket.Conn
 	frames chan struct{}
 	closed chan struct{}
+	ssrc   int32 // low byte of the SSRC of the last RTP frame (atomic)
 }
 
 func pump(ws *websocket.Conn) *dataSock {
@@ -590,6 +640,9 @@ func pump(ws *websocket.Conn) *dataSock {
 			_, msg, err := ws.ReadMessage()
 			if err != nil {
 				return
+			}
+			if len(msg) >= 16 && msg[0] == '$' {
+				atomic.StoreInt32(&d.ssrc, int32(msg[15]))
 			}
 			if len(msg) > 0 && (msg[0] == '$' || (len(msg) >= 3 && string(msg[:3]) == "FLV")) {
 				select {
@@ -643,7 +696,7 @@ func runCase(c Val) Val {
 	defer w.close()
 	for _, p := range env.At(1).List() {
 		path := p.Str()
-		s := media.NewStream(path, sdpText)
+		s := media.NewStream(path, sdpFor(path))
 		media.Regist(s)
 		if media.Get(path) != s {
 			return L(S("!setup"), S("stream not registered at "+path))
@@ -800,18 +853,22 @@ func runCase(c Val) Val {
 				cn = w.conns[k]
 			}
 			if cn == nil || cn.dead {
-				o = L(I(-1), I(0))
+				o = L(I(-1), I(0), I(0))
 				break
 			}
 			m := e.At(2).Int()
 			req := cn.rtspRequest(m, e.At(3).Str(), L(I(0)))
 			wc, _, body, err := wspExchange(cn.ws, fmt.Sprintf("WSP/1.1 WRAP\r\nchannel: %s\r\nseq: %d\r\n\r\n%s", cn.channel, cn.cseq+1, req))
 			code := int64(-1)
+			aux := int64(0) // whose description / media it was
 			if err != nil {
 				cn.dead = true
 			} else if wc == 200 {
 				if r, perr := parseResponse(bufio.NewReader(strings.NewReader(body))); perr == nil {
 					code = int64(r.code)
+					if m == 1 && code == 200 {
+						aux = w.sdpOwner(r.body)
+					}
 				}
 			}
 			mediaSeen := false
@@ -824,8 +881,11 @@ func runCase(c Val) Val {
 					budget = 40
 				}
 				mediaSeen = w.arrivesOn(datas[cn], budget)
+				if mediaSeen {
+					aux = int64(atomic.LoadInt32(&datas[cn].ssrc))
+				}
 			}
-			o = L(I(code), Bo(mediaSeen))
+			o = L(I(code), Bo(mediaSeen), I(aux))
 		case 10: // HTTP: kind 0 flv, 1 m3u8, 2 ts
 			kind, path, tok := e.At(1).Int(), e.At(2).Str(), w.token(e.At(3))
 			if s := media.Get(path); kind == 1 && s != nil && s != w.ext[utils.CanonicalPath(path)] {
